@@ -90,6 +90,9 @@ type Config struct {
 	// PostUnlockYield: a worker also yields right after releasing a mutex, so that the window
 	// between "unlock" and the next instruction that touches shared state can be interleaved
 	PostUnlockYield bool `json:"postUnlockYield,omitempty"`
+	// AtomicYield: a worker yields after every sync/atomic operation (off in sequential
+	// harnesses and in replay files recorded before the rule existed)
+	AtomicYield bool `json:"atomicYield,omitempty"`
 	Trace       bool     `json:"-"` // keep a full textual trace
 }
 
